@@ -9,6 +9,7 @@ ID = 'C01'
 BUDGET = {'quick': 30000, 'thorough': 1500000}
 WALL = {'quick': 100, 'thorough': 1500}
 CHUNK = 60
+REQUIRED_PROBES = ['route_len_1', 'route_len_2', 'route_len_3', 'with_buffer', 'without_buffer', 'padded_block', 'extent_eq_procs', 'leading_extent_1']
 RULE = ('case = (array rank 2-4, global shape, process grid incl. leading extent 1, 1-6 dimension '
         'orderings, payload dtype, list of (source, destination, buffer?) transposes, schedule/fault '
         'configuration), all drawn from the case seed; every rank builds the LayoutHandler and performs '
